@@ -29,13 +29,19 @@ fn main() {
         for b in buffered.iter() {
             *counts.entry(b.2.clone()).or_insert(0) += 1;
         }
-        let mut rare_kept = 0;
+        // coverage-guided by end state: the first `keep` runs, plus the first two runs of every
+        // distinct end state (at most `rare_max` extra traces per group)
+        let mut extra_kept = 0;
+        let mut seen: std::collections::HashMap<String, usize> = std::collections::HashMap::new();
         for (i, (mut summary, trace, fp, keep, rare_max)) in buffered.drain(..).enumerate() {
-            let rare = counts[&fp] * 20 < n.max(1) || (counts[&fp] == 1 && n > 3);
-            let kept = i < keep || (rare && rare_kept < rare_max);
+            let s = seen.entry(fp.clone()).or_insert(0);
+            let novel = *s < 2;
+            *s += 1;
+            let kept = i < keep || (novel && extra_kept < rare_max);
             if kept && i >= keep {
-                rare_kept += 1;
+                extra_kept += 1;
             }
+            let _ = n;
             summary["kept"] = json!(kept);
             summary["fp_count"] = json!(counts[&fp]);
             writeln!(out, "{}", summary).unwrap();
